@@ -364,10 +364,11 @@ Fixpoint wf (s : schema) (d : datum) {struct s} : Prop :=
   | SString, DString l => byte_list l /\ len_ok l /\ valid_utf8 l = true
   | SFixed n, DFixed l => byte_list l /\ length l = n
   | SEnum nsym, DEnum i => (0 <= i < Z.of_nat nsym)%Z /\ i32 i
-  | SDecBytes w, DDec v => (0 < w)%nat /\ (- 2^(8 * Z.of_nat w - 1) <= v < 2^(8 * Z.of_nat w - 1))%Z
+  | SDecBytes w, DDec v => (0 < w <= 32)%nat /\ (- 2^(8 * Z.of_nat w - 1) <= v < 2^(8 * Z.of_nat w - 1))%Z
   | SDecFixed w n, DDec v =>
-      (0 < w)%nat /\ (0 < n)%nat /\ (- 2^(8 * Z.of_nat w - 1) <= v < 2^(8 * Z.of_nat w - 1))%Z /\
-      (- 2^(8 * Z.of_nat n - 1) <= v < 2^(8 * Z.of_nat n - 1))%Z
+      (* the value fits the Arrow integer, and the writer's write_sign_extended accepts it for fixed(n) *)
+      (0 < w <= 32)%nat /\ (0 < n)%nat /\ (- 2^(8 * Z.of_nat w - 1) <= v < 2^(8 * Z.of_nat w - 1))%Z /\
+      sign_fit n (be_bytes w v) <> None
   | SArray it, DArray l => (Z.of_nat (length l) <= max_items)%Z /\ Forall (wf it) l
   | SMap vt, DMap l => (Z.of_nat (length l) <= max_items)%Z /\
                        Forall (fun kv : list N * datum => byte_list (fst kv) /\ len_ok (fst kv) /\ valid_utf8 (fst kv) = true /\ wf vt (snd kv)) l
